@@ -30,7 +30,7 @@ macro_rules! argmax {
                 ok |= ids[j] == got && is_max;
                 j += 1;
             }
-            kani::cover!(vals[$n - 1] > vals[0], "maximum not at the front");
+            kani::cover!($n == 1 || vals[$n - 1] > vals[0], "maximum not at the front");
             assert!(ok, "arg-max sampler returned an id whose score is not maximal");
             std::mem::forget(logits);
         }
